@@ -49,17 +49,19 @@ def observe(cfg, origin=0, variant=0):
             ok = e["values"] == [1000.0 + (i - origin) for i in e["index"]]
             xok = (e["x"] is None and not cfg["nx"]) or (e["x"] == e["index"])
             events.append({"ev": e["ev"], "times": [i - origin for i in e["index"]] if ok and xok else [-9],
-                           "fh": [i - origin for i in e["fh"]] if e.get("fh") else [], "xtimes": [], "a": [], "b": []})
+                           "fh": [i - origin for i in e["fh"]] if e.get("fh") else [], "xtimes": [], "a": [], "b": [],
+                           "upd": bool(e.get("upd", False))})
             if e["ev"] == "fit" and e.get("fh_rel"):
                 # a relative horizon would be relative to the cutoff: normalise to absolute times
                 events[-1]["fh"] = [e["index"][-1] - origin + h for h in e["fh"]]
         elif e["ev"] == "predict":
             events.append({"ev": "predict", "times": [], "fh": [i - origin for i in e["fh"]],
-                           "xtimes": [i - origin for i in e["x"]] if e["x"] is not None else [], "a": [], "b": []})
+                           "xtimes": [i - origin for i in e["x"]] if e["x"] is not None else [], "a": [], "b": [],
+                           "upd": False})
             if mi < len(mev):
                 m = mev[mi]
                 mi += 1
-                events.append({"ev": "metric", "times": [], "fh": [], "xtimes": [],
+                events.append({"ev": "metric", "times": [], "fh": [], "xtimes": [], "upd": False,
                                "a": [int(round(v)) for v in m["a"]], "b": [int(round(v)) for v in m["b"]]})
     rows = []
     for _, r in res.iterrows():
@@ -117,11 +119,15 @@ def honest(ctx, cfg, origin):
             continue
         for k, (train, test) in enumerate(folds):
             ytr, yte = y.iloc[train], y.iloc[test]
-            if k == 0 or cfg["cfg"]["strategy"] == "refit":
-                f = mk()
-                f.fit(ytr)
-            else:
-                f.update(ytr)
+            try:
+                if k == 0 or cfg["cfg"]["strategy"] == "refit":
+                    f = mk()
+                    f.fit(ytr)
+                else:
+                    f.update(ytr)
+            except REJECT as e:
+                bad = "%s fold %d: evaluate returned a table but the honest loop is rejected (%s)" % (name, k, e)
+                break
             from sktime.forecasting.base import ForecastingHorizon
             pred = f.predict(ForecastingHorizon(yte.index, is_relative=False))
             want = metric(yte, pred)
